@@ -971,6 +971,10 @@ func (P *Prog) isCoercedValue(rv ssa.Value) bool {
 		return false
 	}
 	ci := callOf(c)
+	// a deep clone of such a value is a value of the same kind
+	if isDeepCloneFn(ci.static) && len(c.Call.Args) == 1 {
+		return P.isCoercedValue(c.Call.Args[0])
+	}
 	if ci.static == nil || ci.static.Name() != "ValueOf" || !isPkgFunc(ci.static, "reflect") {
 		return false
 	}
